@@ -36,7 +36,7 @@ def subset_render(g, ir, split, rnd):
             return ref_spelling(t["full"], ns)
         tns = t["ns"]
         simple = t["full"].rsplit(".", 1)[-1]
-        d = {"type": k}
+        d = {"type": "error" if t.get("error") else k}
         if tns == ns and rnd.random() < 0.4:
             d["name"] = simple
         elif tns and rnd.random() < 0.5:
